@@ -224,7 +224,7 @@ class Rig:
         return self.vc.now
 
     def detail(self, **kw):
-        return {'cfg': self.cfg, 't': round(self.now, 4), 'steps': self.steps_done[-60:], **kw}
+        return {'cfg': self.cfg, 't': round(self.now, 4), 'steps': list(self.steps_done), **kw}
 
     def witness(self, key, what, **kw):
         self.ctx.witness(key, what, self.detail(**kw))
@@ -386,6 +386,12 @@ class Rig:
                 elif reason in ('unsubscribed', 'expired', 'ended'):
                     key = f'deliver.after_{ {"unsubscribed": "unsubscribe", "expired": "expiry", "ended": "end"}[reason]}.{self.sa}'
                 elif reason is None or reason == 'near_expiry':
+                    if any(f != ev['action'] and f.endswith(ev['action']) for f in model.subs[k].actions):
+                        # the library matches an action that is a proper suffix of a filter string (its own unit test demands
+                        # sub.matches('Act1') for the filter 'http://x/y/Act1'): recorded, not judged
+                        ctx.count('obs.filter_string_with_action_as_proper_suffix_matched')
+                        self.book(k, recs[0], ev['t'])
+                        continue
                     key = f'deliver.filter_mismatch.{self.sa}'
                 else:
                     key = f'deliver.to_dead.{reason}.{self.sa}'
@@ -486,6 +492,9 @@ class Rig:
             if s is not None and 0.001 < s.expires_at + st['delta'] - self.now < 100:
                 dt = s.expires_at + st['delta'] - self.now
         if not self.vc.advance(dt):
+            dead = [name for name, mgr in self.mgrs.items() if not mgr._housekeeping_thread.is_alive()]
+            if dead:
+                self.witness(f'housekeeping.thread_died.{self.sa}', 'the housekeeping thread ended while the provider is running', managers=dead)
             raise RuntimeError('virtual clock: a housekeeping thread did not come back')
         self.ctx.count('clock.advanced_s', int(dt))
 
@@ -517,7 +526,7 @@ class Rig:
         if st['end']:
             netloc = subscriber['netloc'] if st['end'] == 'same' else subscriber['end_netloc']
             end = (f'http://{netloc}/e/{k}', tuple(sorted((f'{{{VF_NS}}}EndId{i}', f'e{k}.{i}') for i in range(st['end_rp']))))
-        filter_uris = [self.actions[n] if n in self.actions else n for n in st['filter']]
+        filter_uris = [self.resolve_action(n) for n in st['filter']]
         req = evt.Subscribe()
         req.Delivery.Mode = f'{WSE_NS}/DeliveryModes/Push'
         req.Delivery.NotifyTo.Address = notify_addr
@@ -570,6 +579,15 @@ class Rig:
             self.by_endpoint[(u.netloc, u.path)] = ('end', k)
         granted = self.check_granted('subscribe', st['expires'], granted, model, resp)
         model.subscribe(k, self.now, granted, filter_uris if st['dialect'] is not None else [], sub['notify'], end)
+
+    def resolve_action(self, name):
+        """'Name' -> offered action URI; 'Name+X' -> URI + 'X' (decoy: contains the action, must never match);
+        'X+Name' -> 'urn:x:' + URI (the action is a proper suffix of the filter string); anything else literally."""
+        if name.endswith('+X') and name[:-2] in self.actions:
+            return self.actions[name[:-2]] + 'X'
+        if name.startswith('X+') and name[2:] in self.actions:
+            return 'urn:x:' + self.actions[name[2:]]
+        return self.actions.get(name, name)
 
     @staticmethod
     def _rp(tag, text):
@@ -814,7 +832,7 @@ def gen_subscribe(rng, n_subscribers, maxd, hostile=True):
         flt = list(STATE_ACTIONS) + ['urn:vf:c08:unknown-action']  # superset of everything offered
     elif r < 0.9:
         # decoys: an offered action with something appended (must never match), plus some real ones
-        flt = [self_action + 'X' for self_action in rng.sample(STATE_ACTIONS[:5], 2)] + rng.sample(STATE_ACTIONS[:7], 1)
+        flt = [name + '+X' for name in rng.sample(STATE_ACTIONS[:5], 2)] + rng.sample(STATE_ACTIONS[:7], 1)
     else:
         flt = ['urn:vf:c08:unknown-action']
     dialect = 'action'
@@ -912,7 +930,8 @@ def directed(limit):
     out['end_false'] = ends + [rep, {'op': 'stop', 'send_end': False}, req('renew', 0, expires=3), rep]
     out['subscribe_variants'] = [sub_step(accept_encoding=None), sub_step(subscriber=1, dialect='urn:vf:c08:dialect'),
                                  sub_step(subscriber=2, dialect=None), sub_step(subscriber=3, accept_encoding='gzip, x-lz4'),
-                                 sub_step(subscriber=4, flt=('EpisodicMetricReportX', 'XEpisodicMetricReport')), rep, alert,
+                                 sub_step(subscriber=4, flt=('EpisodicMetricReport+X', 'EpisodicAlertReport')),
+                                 sub_step(subscriber=4, flt=('X+EpisodicMetricReport',)), rep, alert,
                                  {'op': 'stop', 'send_end': True}]
     bog = []
     for kind in ('renew', 'getstatus', 'unsubscribe'):
@@ -985,6 +1004,16 @@ def run(ctx: core.Ctx):
         'netloc) counts as a failed delivery attempt',
         'observation point is the hand-over to the subscriber-facing SOAP client; delivery success is what the subscriber endpoint answered',
     ]
+    ctx.extra['observations_not_judged'] = [
+        'obs.end.subscription_manager_address_without_slashes: SubscriptionEnd carries SubscriptionManager/Address "http:host:port/path" (C04 schema / content, not C08)',
+        'obs.subscribe.accepted_unknown_dialect.async: the async managers accept a Subscribe with a foreign filter dialect, the sync managers refuse it',
+        'obs.handoff_without_wire.NotConnected.sync: after one connection error the shared sync SOAP client of a netloc refuses every further message '
+        '(no reconnect) until all subscriptions of that netloc are gone; sibling subscriptions die without anything being sent',
+        'obs.renew_revives_expired_entry_before_housekeeping: Renew naming an expired entry that housekeeping has not removed yet is served and revives it',
+        'obs.filter_string_with_action_as_proper_suffix_matched: matches() is endswith(), a filter string that merely ends with the action matches',
+        'obs.request_served_in_grace.*: requests naming a dead entry that is still known to the provider (<= 2 s) are served',
+        'suspicion refuted: a Subscribe without Accept-Encoding header is accepted by all four managers (HTTPMessage[...] returns None, no KeyError)',
+    ]
     n_seq, length = (304, 40) if ctx.quick else (5008, 80)
     jobs = [['w_sequences', {'i': k, 'directed': True, 'limits': [[None], [2]][k // 4]}] for k in range(8)]
     per = n_seq // 16
@@ -1006,6 +1035,16 @@ def run(ctx: core.Ctx):
     ctx.floor('table.index_vs_scan', 2000)
     for kind in FAULT_KINDS:
         ctx.floor(f'fault.injected.{kind}', 8)
+
+
+def replay(ctx: core.Ctx, w):
+    """./check C08 --replay <file>: re-run the recorded step list (up to the witness) against the current tree."""
+    d = w['detail']
+    run_sequence(ctx, d['cfg'], d['steps'], 'replay')
+    for x in ctx.witnesses:
+        print('replayed witness:', x['key'], '-', x['what'])
+    ctx.case('replay')
+    ctx.case('replay2')
 
 
 def dispatch(ctx: core.Ctx, job):
